@@ -36,6 +36,8 @@ def run(rep: Report, ctx: Any) -> str:
     rep.rule("R04.5", "status parsing is contained: HTTPStatus(int(code)) sits in a try catching ValueError whose handler records a diagnostic")
     rep.rule("R04.6", "a union member's failing type check raises outside try/except only if it is the last member and no unmodified "
                       "member can still accept the value")
+    rep.rule("R04.7", "resolving a $ref'd component response rebinds only `data`: the threaded state and the naming inputs are the same as "
+                      "for an inline response (shared with C20)")
 
     # ---- R04.1 -----------------------------------------------------------------------------------------------------
     top = list(tplq.frags(et.tree.body))
